@@ -277,6 +277,11 @@ fn gen_newnode(ch: &mut dyn Chooser, w: &World, cfg: &Cfg, depth: usize, budget:
             4 => self_ref = true,
             _ => {}
         }
+        // a second outward Ref on the same instance (each Ref property is rewritten on its own)
+        if !ids.is_empty() && ch.choose(3) == 0 {
+            let t = ids[ch.choose(ids.len())];
+            props.push(("Link".to_owned(), MV::Ref(MRef::Node(t))));
+        }
     }
     let mut children = vec![];
     if depth < 2 {
@@ -372,12 +377,15 @@ fn gen_op(ch: &mut dyn Chooser, w: &World, cfg: &Cfg) -> Option<Op> {
                 let cands: Vec<usize> = live.iter().copied().filter(|n| w.m.nodes[n].dom == d).collect();
                 let mut xs: Vec<usize> = vec![];
                 let want = 1 + ch.choose(3);
+                // the documentation asks for nothing about the list: one time in four it may name an
+                // instance twice or an instance together with one of its descendants
+                let overlap_ok = ch.choose(4) == 0;
                 for _ in 0..want * 2 {
                     if xs.len() >= want || cands.is_empty() {
                         break;
                     }
                     let c = cands[ch.choose(cands.len())];
-                    if xs.iter().all(|s| !w.m.in_subtree(*s, c) && !w.m.in_subtree(c, *s)) {
+                    if overlap_ok || xs.iter().all(|s| !w.m.in_subtree(*s, c) && !w.m.in_subtree(c, *s)) {
                         xs.push(c);
                     }
                 }
@@ -410,6 +418,13 @@ fn all_ops(w: &World, cfg: &Cfg) -> Vec<Op> {
                     variants.push(vec![("Value".to_owned(), MV::Ref(MRef::Null))]);
                     for t in &live {
                         variants.push(vec![("Value".to_owned(), MV::Ref(MRef::Node(*t)))]);
+                    }
+                    for t in &live {
+                        for t2 in &live {
+                            if t < t2 {
+                                variants.push(vec![("Value".to_owned(), MV::Ref(MRef::Node(*t2))), ("Link".to_owned(), MV::Ref(MRef::Node(*t)))]);
+                            }
+                        }
                     }
                 }
                 for mut props in variants {
@@ -448,9 +463,16 @@ fn all_ops(w: &World, cfg: &Cfg) -> Vec<Op> {
         }
     }
     for (i, a) in live.iter().enumerate() {
+        // the same instance twice
+        for dest in 0..cfg.ndoms {
+            if dest != w.m.nodes[a].dom {
+                ops.push(Op::CloneMulti { xs: vec![*a, *a], dest });
+            }
+        }
         for b in live.iter().skip(i + 1) {
             let d = w.m.nodes[a].dom;
-            if w.m.nodes[b].dom == d && !w.m.in_subtree(*a, *b) && !w.m.in_subtree(*b, *a) {
+            // disjoint subtrees, and an instance together with one of its descendants, in both orders
+            if w.m.nodes[b].dom == d {
                 for dest in 0..cfg.ndoms {
                     if dest != d {
                         ops.push(Op::CloneMulti { xs: vec![*a, *b], dest });
@@ -526,17 +548,28 @@ fn entering_uids(m: &Model, ids: &[usize]) -> Vec<(usize, UniqueId)> {
         .collect()
 }
 
-fn model_clone(w: &mut World, xs: &[usize], dest: usize) -> (Vec<usize>, Vec<(usize, usize)>) {
-    // returns (clone roots, (original, copy) pairs in BFS order per root)
+/// One Ref property of a copy whose original target was copied more than once in the same call
+/// (overlapping arguments of clone_multiple_into_external): any of the copies is "the corresponding copy".
+pub struct Ambiguous {
+    pub copy: usize,
+    pub prop: String,
+    pub cands: Vec<usize>,
+}
+
+fn model_clone(w: &mut World, xs: &[usize], dest: usize) -> (Vec<usize>, Vec<(usize, usize)>, Vec<Ambiguous>) {
+    // returns (clone roots, (original, copy) pairs in BFS order per root, ambiguous Ref targets)
     let mut pairs: Vec<(usize, usize)> = vec![];
     let mut roots = vec![];
     let mut map: HashMap<usize, usize> = HashMap::new();
+    let mut all: HashMap<usize, Vec<usize>> = HashMap::new();
+    let mut amb: Vec<Ambiguous> = vec![];
     for x in xs {
         let bfs = w.m.subtree_bfs(*x);
         for o in &bfs {
             let id = w.m.next;
             w.m.next += 1;
             map.insert(*o, id);
+            all.entry(*o).or_default().push(id);
             pairs.push((*o, id));
         }
         roots.push(map[x]);
@@ -554,12 +587,15 @@ fn model_clone(w: &mut World, xs: &[usize], dest: usize) -> (Vec<usize>, Vec<(us
     let dest_has: HashSet<usize> = w.m.nodes.iter().filter(|(_, n)| n.dom == dest).map(|(i, _)| *i).collect();
     for (_, c) in &pairs {
         let node = w.m.nodes.get_mut(c).unwrap();
-        for (_, pv) in node.props.iter_mut() {
+        for (pk, pv) in node.props.iter_mut() {
             if let MV::Ref(t) = pv {
                 let nt = match t {
                     MRef::Null => MRef::Null,
                     MRef::Node(i) => {
                         if let Some(cp) = map.get(i) {
+                            if all[i].len() > 1 {
+                                amb.push(Ambiguous { copy: *c, prop: pk.clone(), cands: all[i].clone() });
+                            }
                             MRef::Node(*cp)
                         } else if dest_has.contains(i) {
                             MRef::Node(*i)
@@ -573,7 +609,27 @@ fn model_clone(w: &mut World, xs: &[usize], dest: usize) -> (Vec<usize>, Vec<(us
             }
         }
     }
-    (roots, pairs)
+    (roots, pairs, amb)
+}
+
+/// A Ref whose original target has several copies may point at any one of them: adopt the copy the
+/// implementation chose when it is one of the candidates (otherwise the model keeps its own choice and
+/// the property comparison reports the mismatch).
+fn resolve_ambiguous(w: &mut World, dest: usize, amb: &[Ambiguous]) {
+    for a in amb {
+        let rr = match w.r.get(&a.copy) {
+            Some(r) => *r,
+            None => continue,
+        };
+        let got = match w.doms[dest].get_by_ref(rr).and_then(|i| i.properties.get(&rbx_dom_weak::ustr(a.prop.as_str()))) {
+            Some(Variant::Ref(t)) => *t,
+            _ => continue,
+        };
+        if let Some(c) = a.cands.iter().find(|c| w.r.get(c) == Some(&got)) {
+            let c = *c;
+            w.m.nodes.get_mut(&a.copy).unwrap().props.insert(a.prop.clone(), MV::Ref(MRef::Node(c)));
+        }
+    }
 }
 
 /// map the copies of a clone to real referents by parallel traversal; shape mismatch -> C11
@@ -695,7 +751,7 @@ pub fn apply(w: &mut World, op: &Op, out: &mut Vec<V>) {
             };
             let s_before = w.m.held_uids(dest);
             let src_before = dump_model_dom(&w.m, d);
-            let (roots, pairs) = model_clone(w, &[*x], dest);
+            let (roots, pairs, _) = model_clone(w, &[*x], dest);
             let rx = w.r[x];
             let got = if dest == d {
                 w.doms[d].clone_within(rx)
@@ -720,7 +776,7 @@ pub fn apply(w: &mut World, op: &Op, out: &mut Vec<V>) {
         Op::CloneMulti { xs, dest } => {
             let d = w.m.nodes[&xs[0]].dom;
             let s_before = w.m.held_uids(*dest);
-            let (roots, pairs) = model_clone(w, xs, *dest);
+            let (roots, pairs, amb) = model_clone(w, xs, *dest);
             let rxs: Vec<Ref> = xs.iter().map(|x| w.r[x]).collect();
             let got = {
                 let (a, b) = if d < *dest {
@@ -738,6 +794,7 @@ pub fn apply(w: &mut World, op: &Op, out: &mut Vec<V>) {
             for (mr, rr) in roots.iter().zip(got.iter()) {
                 map_clone(w, *dest, *mr, *rr, out, opn);
             }
+            resolve_ambiguous(w, *dest, &amb);
             let copies: Vec<usize> = pairs.iter().map(|(_, c)| *c).collect();
             let entering = entering_uids(&w.m, &copies);
             check_uid_rule(w, *dest, &entering, &s_before, out, opn);
